@@ -357,31 +357,29 @@ Definition put_classes (inh : option imap) (fs : list fld) : list fld :=
   end.
 
 (* oc_in inh m: m after its parent pushed the classes `inh` into it and overlayClasses(m) ran.
-   overlayClasses(m) returns at once when m has no classes map: then its layers are not visited. *)
+   (d2 2ba3646d1: overlayClasses visits the layers of m even when m has no classes map of its own; a layer
+   then only receives classes when the board above it has some.  The pinned variant, which returned at
+   once, is kept in History.v.) *)
 Fixpoint oc_in (inh : option imap) (m : imap) {struct m} : imap :=
   match m with
   | IMap fs es =>
       let mine := merged_classes inh fs in
       let fs1 :=
-        match mine with
-        | None => fs
-        | Some _ =>
-            (fix go (fs : list fld) (seen : bool) : list fld :=
-               match fs with
-               | [] => []
-               | Fld n p (Some (IMap lfs les)) :: tl =>
-                   if str_eqb n s_layers && negb seen
-                   then Fld n p (Some (IMap
-                          ((fix go2 (lfs : list fld) : list fld :=
-                              match lfs with
-                              | [] => []
-                              | Fld ln None (Some l) :: ltl => Fld ln None (Some (oc_in mine l)) :: go2 ltl
-                              | lf :: ltl => lf :: go2 ltl
-                              end) lfs) les)) :: go tl true
-                   else Fld n p (Some (IMap lfs les)) :: go tl (seen || str_eqb n s_layers)
-               | f :: tl => f :: go tl (seen || str_eqb (f_name f) s_layers)
-               end) fs false
-        end in
+        (fix go (fs : list fld) (seen : bool) : list fld :=
+           match fs with
+           | [] => []
+           | Fld n p (Some (IMap lfs les)) :: tl =>
+               if str_eqb n s_layers && negb seen
+               then Fld n p (Some (IMap
+                      ((fix go2 (lfs : list fld) : list fld :=
+                          match lfs with
+                          | [] => []
+                          | Fld ln None (Some l) :: ltl => Fld ln None (Some (oc_in mine l)) :: go2 ltl
+                          | lf :: ltl => lf :: go2 ltl
+                          end) lfs) les)) :: go tl true
+               else Fld n p (Some (IMap lfs les)) :: go tl (seen || str_eqb n s_layers)
+           | f :: tl => f :: go tl (seen || str_eqb (f_name f) s_layers)
+           end) fs false in
       IMap (put_classes inh fs1) es
   end.
 
